@@ -126,6 +126,8 @@ TraceReq ==
         /\ e.hang = FALSE
         /\ ArmsOK(e.arms, ~e.closed)                 \* armed again iff the loop goes on
         /\ (e.stalled => CutOK(e))                   \* a request stalled half-way is ended by the deadline armed before it
+        \* a peer that stops reading the reply (and stays silent) is cut as well, T after the transfer stopped moving
+        /\ (e.wstalled => (tmo > 0 => (e.closed /\ CutOK(e))))
         /\ \E o \in HandleF(conn[c].cs, fs, e.req, aw, views, e.faults) :
              /\ Matches(o.resp, e.resp)
              /\ o.close = e.closed
